@@ -35,7 +35,11 @@ ASSUMPTIONS = [
     'replies, a retransmitted request being idempotent on the server',
     'requests are in the domain wf_event: id a byte, 0 <= addr, addr+len <= 2^32, data bytes; outside it struct.pack '
     'raises inside the code (for writes while the lock is held) - not modelled',
-    'callbacks registered by the user do not raise and do not re-enter Memory; progress_cb is not modelled',
+    'a request issued by a listener from inside a success / failure notification is modelled as the same request issued '
+    'right after the event (the code calls its listeners last); the tie checks exactly that on every run (nested calls '
+    'are reported as events of their own, nothing may follow them inside the handler); listeners that raise, and '
+    'requests issued from inside the notifications of a disconnect (wiped by _clear_state), are not modelled; '
+    'progress_cb is not modelled',
 ]
 PROVED = ('For every history of reads, queued / flushing writes, arbitrary packets on the memory port and disconnects '
           '(no bound on length): request packets stay within the protocol limits (<= 30 bytes, read chunks <= 20, '
@@ -52,7 +56,7 @@ PROVED = ('For every history of reads, queued / flushing writes, arbitrary packe
 NOT_PROVED = ('Exactness when a reply that outlived its request (a late duplicate) is delivered to a later request for '
               'the same memory and address: refuted (C06_read_exact_full_refuted / C06_write_exact_full_refuted, '
               'finding F06b, reproduced on the code by the oracle; the protocol carries no transaction number). '
-              'Requests outside wf_event, user callbacks that raise or re-enter, progress_cb (a zero-length write with '
+              'Requests outside wf_event, user callbacks that raise, requests issued from the notifications of a disconnect, progress_cb (a zero-length write with '
               'a progress callback divides by zero while the lock is held), true thread interleavings of user calls with '
               'the packet thread, the info channel (memory enumeration).')
 
@@ -93,14 +97,16 @@ def ev_term(ev):
     raise ValueError(ev)
 
 
-def case_term(case):
+def case_term(case, events=None):
+    """events: the flattened history (operations issued from inside listeners as events of their own)"""
     wins = '[' + '; '.join('(%d, %d, %d)' % tuple(w) for w in case['windows']) + ']'
-    return 'run_case true %s [%s] %s' % (coqrun.zlist(case['plan']), '; '.join(ev_term(e) for e in case['events']), wins)
+    evs = case['events'] if events is None else events
+    return 'run_case true %s [%s] %s' % (coqrun.zlist(case['plan']), '; '.join(ev_term(e) for e in evs), wins)
 
 
 def windows_of(events):
     ws = []
-    for e in events:
+    for e in c06_mem.all_ops(events):
         if e[0] == 'W':
             lo = max(0, e[2] - 2)
             w = [e[1], lo, min(len(e[3]) + 4, 2 ** 32 - lo)]
@@ -147,11 +153,9 @@ def gen_case(rng, style):
         undel = [k for k in range(len(rig.log)) if k not in delivered]
         c = rng.random()
         if c < 0.12 or not rig.log and c < 0.5:
-            n = rng.choice(R_LENS) if rng.random() < 0.8 else rng.randrange(0, 130)
-            do(['R', rng.choice(ids), _addr(rng, n), n])
+            do(_gen_op(rng, ids, 'R', 2 if style != 'clean' else 0))
         elif c < 0.30 or not rig.log:
-            n = rng.choice(W_LENS) if rng.random() < 0.8 else rng.randrange(0, 130)
-            do(['W', rng.choice(ids), _addr(rng, n), [rng.randrange(256) for _ in range(n)], rng.random() < 0.25])
+            do(_gen_op(rng, ids, 'W', 2 if style != 'clean' else 0))
         elif c < 0.62 and undel:
             k = undel[0]
             delivered.add(k)
@@ -184,6 +188,28 @@ def gen_case(rng, style):
     return {'plan': plan, 'events': events, 'windows': windows_of(events)}
 
 
+def _gen_op(rng, ids, kind, depth, same=None):
+    """a read or write; with some probability it carries a reaction: a request the listener issues from inside the
+    notification (a retry of the same request, or another request, mostly on the same memory)"""
+    i = rng.choice(ids) if same is None or rng.random() < 0.2 else same
+    if kind == 'R':
+        n = rng.choice(R_LENS) if rng.random() < 0.8 else rng.randrange(0, 130)
+        ev = ['R', i, _addr(rng, n), n]
+    else:
+        n = rng.choice(W_LENS) if rng.random() < 0.8 else rng.randrange(0, 130)
+        ev = ['W', i, _addr(rng, n), [rng.randrange(256) for _ in range(n)], rng.random() < 0.25]
+    if depth > 0 and rng.random() < 0.3:
+        on = rng.choice(['ok', 'fail', 'fail', 'any'])
+        if rng.random() < 0.4:
+            op = list(ev)                                   # retry
+            if rng.random() < 0.3 and depth > 1:
+                op.append({'on': rng.choice(['ok', 'fail', 'any']), 'op': _gen_op(rng, ids, rng.choice('RW'), 0, i)})
+        else:
+            op = _gen_op(rng, ids, rng.choice('RW'), depth - 1, i)
+        ev.append({'on': on, 'op': op})
+    return ev
+
+
 def _forged(rng, rig, ids):
     c = rng.randrange(8)
     i = rng.choice(ids)
@@ -211,7 +237,7 @@ def _forged(rng, rig, ids):
 
 
 def nontrivial(case):
-    evs = case['events']
+    evs = list(c06_mem.all_ops(case['events']))
     cross = any((e[0] == 'R' and e[3] > 20) or (e[0] == 'W' and len(e[3]) > 25) for e in evs)
     ds = [e[1] for e in evs if e[0] == 'D']
     dup = len(ds) != len(set(ds))
@@ -266,10 +292,16 @@ def tie(ctx):
             evs = [op] + [['D', j] for j in range(k)] + [['X'], op] + [['D', j] for j in range(k + m + 1)]
             cases.append({'plan': [], 'events': evs, 'windows': windows_of(evs)})
     terms, exp, anomalies = [], [], []
+    n_nested = 0
     for c in cases:
         ints, rig = run_impl(c)
-        terms.append(case_term(c))
+        terms.append(case_term(c, rig.flat))
         exp.append(ints)
+        n_nested += len(rig.flat) - len(c['events'])
+        if rig.obs_after_nested and len(anomalies) < 5:
+            anomalies.append({'what': 'the handler went on sending / notifying after a listener that issued a request '
+                                      'from inside the notification returned (listeners must be called last)',
+                              'events': c['events'][:12]})
         if rig.anomalies and len(anomalies) < 5:
             anomalies.append({'what': 'send_packet called with arguments the protocol does not need '
                                       '(port 4, channel 1/2, expected_reply = first five bytes, timeout 1, <= 30 bytes)',
@@ -310,6 +342,7 @@ def tie(ctx):
         # stale deliveries: marker 9 followed by freshness flag 0 on a 'D' event
     dist['stale_deliveries_in_first_300'] = sum(_count_stale(c) for c in cases[:300])
     dist['enumerated_schedules'] = n_enum
+    dist['requests_issued_from_inside_a_notification'] = n_nested
     return {
         'evaluations': len(cases),
         'distinct_nontrivial': len(keys),
@@ -373,6 +406,7 @@ class Judge:
         self.handover = {}       # id -> uid that must be notified before the current event ends
         self.delivered = set()
         self.log_uid = []        # uid this bookkeeping attributes the n-th request packet (= n-th reply) to
+        self.expect = {}
 
     def flag(self, cls, detail, expected=None, observed=None, k=None):
         if self.fail is None:
@@ -398,7 +432,9 @@ class Judge:
         return (self.wq.get(r['id']) or [None])[0] == u
 
     def taint(self, ev):
-        """a reply that does not answer a packet of the active request of its memory reaches the code"""
+        """A reply that does not answer a packet of the active request of its memory reaches the code.  Replies are
+        matched by memory and address, so only a status-0 reply carrying exactly the address the active request is
+        waiting for can be mistaken for its answer (F06b); any other one must be ignored and taints nothing."""
         rig = self.rig
         if ev[0] == 'D':
             if not (0 <= ev[1] < len(rig.log)):
@@ -406,30 +442,30 @@ class Judge:
             chan, rep, how = rig.log[ev[1]][0], rig.log[ev[1]][1], 'stale'
         else:
             chan, rep, how = ev[1], ev[2], 'forged'
-        if rep:
-            i = rep[0]
-            if chan == 1 and i in self.rpend:
-                self.req[self.rpend[i]]['tainted'].add(how)
-            if chan == 2 and self.wq.get(i):
-                for u in self.wq[i][:2]:
-                    self.req[u]['tainted'].add(how)
+        if len(rep) < 6 or rep[5] != 0:
+            return
+        i = rep[0]
+        a = rep[1] | rep[2] << 8 | rep[3] << 16 | rep[4] << 24
+        if chan == 1 and i in self.rpend:
+            r = self.req[self.rpend[i]]
+            if r.get('last_a') == a:
+                r['tainted'].add(how)
+        if chan == 2 and self.wq.get(i):
+            r = self.req[self.wq[i][0]]
+            if r.get('last_a') == a:
+                r['tainted'].add(how)
 
-    def step(self, k, ev):
-        rig = self.rig
-        if ev[0] == 'D' and 0 <= ev[1] < len(rig.log):
-            self.delivered.add(ev[1])
-        if not self.is_fresh(ev):
-            self.taint(ev)
-        u0 = rig.uid
-        expect_refusal = False
+    def begin_op(self, k, ev, u0):
+        """bookkeeping of a read()/write() call at the moment it is made (top level or from inside a listener)"""
         if ev[0] == 'R':
             if ev[1] in self.rpend:
-                expect_refusal = True
+                self.expect[u0] = 'refused'
             else:
+                self.expect[u0] = 'accepted'
                 self.req[u0] = {'kind': 'r', 'id': ev[1], 'addr': ev[2], 'len': ev[3], 'state': 'pending',
                                 'tainted': set(), 'wserved': False, 'off': 0, 'npk': 0}
                 self.rpend[ev[1]] = u0
-        elif ev[0] == 'W':
+        else:
             q = self.wq.setdefault(ev[1], [])
             if ev[4]:
                 for u in q[1:]:
@@ -438,14 +474,23 @@ class Judge:
             self.req[u0] = {'kind': 'w', 'id': ev[1], 'addr': ev[2], 'data': list(ev[3]), 'state': 'pending',
                             'tainted': set(), 'sent': 0, 'npk': 0, 'snapshot': None}
             q.append(u0)
-        z = rig.do(ev)
-        body = z[3:]
-        if ev[0] == 'R':
-            if expect_refusal and rig.uid != u0:
-                self.flag('read_accepted_while_one_pending', 'read() returned True with a read pending on the memory', k=k)
-            if not expect_refusal and rig.uid != u0 + 1:
-                self.flag('read_refused_without_reason', 'read() returned False although no read is pending on this '
-                          'memory: a request record was left behind', True, False, k)
+
+    def end_op(self, k, ev, u0, u1):
+        if ev[0] != 'R':
+            return
+        if self.expect.get(u0) == 'refused' and u1 != u0:
+            self.flag('read_accepted_while_one_pending', 'read() returned True with a read pending on the memory', k=k)
+        if self.expect.get(u0) == 'accepted' and u1 != u0 + 1:
+            self.flag('read_refused_without_reason', 'read() returned False although no read is pending on this '
+                      'memory: a request record was left behind', True, False, k)
+
+    def step(self, k, ev):
+        rig = self.rig
+        if ev[0] == 'D' and 0 <= ev[1] < len(rig.log):
+            self.delivered.add(ev[1])
+        if not self.is_fresh(ev):
+            self.taint(ev)
+        rig.do(ev)
         if rig.locked():
             cls = 'lock_left_held'
             # a write acknowledgement (replayed or forged) for a memory whose queue is empty
@@ -454,13 +499,17 @@ class Judge:
             if ev[0] == 'P' and ev[1] == 2 and ev[2] and not self.wq.get(ev[2][0]):
                 cls = 'dup_final_write_ack'
             self.flag(cls, 'the write lock is still held after the event', 'free', 'held', k)
-        if 7 in _markers(body) and ev[0] != 'P':
+        if rig.last_raised and ev[0] != 'P':
             self.flag('handler_raises', 'an exception left %r' % (ev[:2],), 'no exception', 'raised', k)
-        if 8 in _markers(body):
+        if rig.last_hung:
             self.flag('blocks_on_lock', 'the call blocks for ever on the write lock', 'served', 'blocked', k)
         for item in rig.stream[self.seen:]:
             if item[0] == 's':
                 self.check_packet(k, item[1], item[2], item[3])
+            elif item[0] == 'op':
+                self.begin_op(k, item[1], item[2])
+            elif item[0] == 'opret':
+                self.end_op(k, item[1], item[2], item[3])
             else:
                 self.check_note(k, ev, item[1], item[2] if len(item) > 2 else None)
         self.seen = len(rig.stream)
@@ -500,6 +549,7 @@ class Judge:
                               % (r['addr'], r['len'], a, n, want[0], want[1]), list(want), [a, n], k)
                 r['off'] += n
             r['npk'] += 1
+            r['last_a'] = a
             self.log_uid[-1] = u
         elif chan == 2:
             q = self.wq.get(i)
@@ -530,6 +580,7 @@ class Judge:
             self.log_uid[-1] = ru
             r['sent'] = off + len(chunk)
             r['npk'] += 1
+            r['last_a'] = a
             if i in self.rpend:
                 self.req[self.rpend[i]]['wserved'] = True
 
@@ -552,7 +603,9 @@ class Judge:
             if self.rpend.get(i) == u:
                 del self.rpend[i]
             if kind == 'rok' and 'forged' not in r['tainted'] and not r['wserved']:
-                want = [self.rig.byte(i, r['addr'] + j) for j in range(r['len'])]
+                # the bytes held at the moment of the notification (a listener may issue a write from inside it)
+                held = (lambda x: img.get(x, c06_mem.test_mem(i, x))) if img is not None else (lambda x: self.rig.byte(i, x))
+                want = [held(r['addr'] + j) for j in range(r['len'])]
                 if note[4] != want:
                     cls = 'stale_reply_accepted_by_later_request' if r['tainted'] else 'read_data_wrong'
                     self.flag(cls, 'read of [%d,+%d) on memory %d returned %d bytes that are not the bytes held there'
@@ -684,6 +737,27 @@ def systematic_cases(deep):
         evs += [x for k in range(10) for x in (['D', k], ['D', k])]
         out.append({'plan': [], 'events': evs})
         out.append({'plan': [0, 9], 'events': evs})
+    # requests issued from inside a notification (re-entrant listeners): retry of a refused write / read, a follow-up
+    # request from the success notification, with and without another write queued behind
+    d60 = [(j + 1) % 256 for j in range(60)]
+    for plan in ([5], [0, 5], [0, 0, 5]):
+        w = ['W', 1, 100, d60, False, {'on': 'fail', 'op': ['W', 1, 100, d60, False]}]
+        out.append({'plan': plan, 'events': [w] + [['D', k] for k in range(8)]})
+        out.append({'plan': plan, 'events': [w, ['W', 1, 10, [9] * 30, False]] + [['D', k] for k in range(10)]})
+        r = ['R', 1, 3, 45, {'on': 'fail', 'op': ['R', 1, 3, 45]}]
+        out.append({'plan': plan, 'events': [r] + [['D', k] for k in range(8)]})
+    w = ['W', 2, 0, d60, False, {'on': 'ok', 'op': ['W', 2, 30, d60, True, {'on': 'ok', 'op': ['R', 2, 0, 90]}]}]
+    out.append({'plan': [], 'events': [w] + [['D', k] for k in range(12)]})
+    r = ['R', 2, 0, 41, {'on': 'ok', 'op': ['R', 2, 41, 41, {'on': 'any', 'op': ['W', 2, 0, d60, False]}]}]
+    out.append({'plan': [], 'events': [r] + [['D', k] for k in range(12)]})
+    # a late duplicate of a reply to an earlier read, with an address other than the awaited one (higher, lower),
+    # delivered during a later read of the same memory: must be ignored
+    for (a1, a2, n2) in ((20, 0, 40), (40, 0, 60), (0, 20, 40), (25, 5, 45)):
+        evs = [['R', 1, a1, 20], ['D', 0], ['R', 1, a2, n2], ['D', 0], ['D', 1], ['D', 2], ['D', 3], ['D', 4]]
+        out.append({'plan': [], 'events': evs})
+    for (a1, a2) in ((25, 0), (0, 25)):
+        evs = [['W', 1, a1, [7] * 25, False], ['D', 0], ['W', 1, a2, d60, False], ['D', 0], ['D', 1], ['D', 2], ['D', 3]]
+        out.append({'plan': [], 'events': evs})
     # interleaved memories
     evs = [['R', 1, 0, 50], ['W', 1, 0, list(range(60)), False], ['R', 2, 0, 50], ['W', 2, 7, list(range(40)), False]]
     evs += [['D', k] for k in (3, 2, 1, 0, 4, 5, 6, 7, 8, 9, 10)]
